@@ -292,6 +292,32 @@ func genC14(t *rapid.T) C14Case {
 
 func TestC14(t *testing.T) {
 	p := Prop[C14Case]{ID: "C14", Sub: "arith", Gen: genC14, Run: runC14}
+	// every pair of machine-word boundary coefficients under every binary operation
+	EnumerateSharded(t, p, "boundary-pairs", func(shard, nshards int, yield func(C14Case) bool) {
+		var coefs []*big.Int
+		for _, s := range []string{"0", "1", "2", "9", "10", "2147483647", "2147483648", "4294967295", "4294967296", "9223372036854775807", "9223372036854775808",
+			"9223372036854775809", "18446744073709551615", "18446744073709551616", "1000000000000000000", "10000000000000000000", "3037000500", "4611686018427387904"} {
+			v, _ := new(big.Int).SetString(s, 10)
+			coefs = append(coefs, v, new(big.Int).Neg(v))
+		}
+		idx := 0
+		for _, op := range []string{"add", "sub", "mul", "cmp", "equal"} {
+			for _, x := range coefs {
+				for _, y := range coefs {
+					for _, ex := range []int64{0, 1, -1, 19, -19} {
+						idx++
+						if idx%nshards != shard {
+							continue
+						}
+						c := C14Case{Op: op, A: decJ(model.Dec{Coef: x, Exp: 0}), B: decJ(model.Dec{Coef: y, Exp: ex})}
+						if !yield(c) {
+							return
+						}
+					}
+				}
+			}
+		}
+	})
 	// exhaustive grid for String/Parse: coefficients with 1..6 digits (first,
 	// middle, last of each length) x exponents -8..8 x sign x negative zero
 	Enumerate(t, p, "text-grid", func(yield func(C14Case) bool) {
